@@ -220,7 +220,11 @@ namespace ST
         {
             const size_t cmplen = std::min<size_t>(lsize, rsize);
             const int cmp = traits_t::compare(left, right, cmplen);
-            return cmp ? cmp : static_cast<int>(lsize - rsize);
+            if (cmp)
+                return cmp;
+
+            // Don't narrow the size difference to int: it may not fit
+            return (lsize < rsize) ? -1 : (lsize > rsize) ? 1 : 0;
         }
 
         ST_NODISCARD
